@@ -266,6 +266,17 @@ mod mapprobe {
     let mut w = key.write(pie.resource_state_mut::<K>()).unwrap();
     w.insert(v);
   }
+  // the in-place route of the writer: get_mut when the key is present (checked through get), insert otherwise
+  fn modify<K: MapKey<Value = i64> + From<u32> + Clone>(pie: &mut Pie<()>, k: u32, v: i64) {
+    let key = K::from(k);
+    let mut w = key.write(pie.resource_state_mut::<K>()).unwrap();
+    let present = w.get().is_some();
+    match w.get_mut() {
+      Some(slot) => { assert!(present); *slot = v; }
+      None => { assert!(!present); w.insert(v); }
+    }
+    assert_eq!(w.get().copied(), Some(v));
+  }
   fn remove<K: MapKey<Value = i64> + From<u32> + Clone>(pie: &mut Pie<()>, k: u32) {
     let key = K::from(k);
     let mut w = key.write(pie.resource_state_mut::<K>()).unwrap();
@@ -369,6 +380,9 @@ mod mapprobe {
                    writeln!(out, "r {}", o(v)).unwrap(); }
           "w" => { let kt: u32 = t.num(); let k: u32 = t.num(); let v: i64 = t.num();
                    if kt == 6 { insert6(&mut pie, k, v) } else if kt == 4 { insert_o(&mut pie, MapKeyToObj(k), v) } else if kt >= 5 { insert_o(&mut pie, okey5(k), v) } else { by_key!(kt, insert, &mut pie, k, v) }
+                   writeln!(out, "u").unwrap(); }
+          "m" => { let kt: u32 = t.num(); let k: u32 = t.num(); let v: i64 = t.num();
+                   by_key!(kt, modify, &mut pie, k, v);
                    writeln!(out, "u").unwrap(); }
           "x" => { let kt: u32 = t.num(); let k: u32 = t.num();
                    if kt == 6 { remove6(&mut pie, k) } else if kt == 4 { remove_o(&mut pie, MapKeyToObj(k)) } else if kt >= 5 { remove_o(&mut pie, okey5(k)) } else { by_key!(kt, remove, &mut pie, k) }
